@@ -5,7 +5,7 @@ pub struct MenuEntry {
     /// How the type is written in harness code (the definitions record truc's own name for it).
     pub rust: &'static str,
     pub copy: bool,
-    /// Values carry a ledger identity.
+    /// Values own tracked ledger tokens (one, or several for containers).
     pub token: bool,
     /// Zero-size type with a counted Drop.
     pub zst_counted: bool,
@@ -19,7 +19,7 @@ const fn e(rust: &'static str, copy: bool, token: bool, zst_counted: bool, dropp
     MenuEntry { rust, copy, token, zst_counted, droppable, serde_ok }
 }
 
-pub const MENU: [MenuEntry; 31] = [
+pub const MENU: [MenuEntry; 34] = [
     e("u8", true, false, false, false, true),
     e("u16", true, false, false, false, true),
     e("u32", true, false, false, false, true),
@@ -51,6 +51,9 @@ pub const MENU: [MenuEntry; 31] = [
     e("vtypes::TokZ", false, false, true, true, true),
     e("usize", true, false, false, false, true),
     e("[u8; 5]", true, false, false, false, true),
+    e("vtypes::BigTok", false, true, false, true, true),
+    e("Vec<vtypes::Tok8>", false, true, false, true, true),
+    e("[u64; 12]", true, false, false, false, true),
 ];
 
 /// Evaluates `$body` with `$t` bound to the menu type of index `$idx`.
@@ -88,7 +91,10 @@ macro_rules! with_menu_type {
             27 => { type $t = $crate::TokBox; $body }
             28 => { type $t = $crate::TokZ; $body }
             29 => { type $t = usize; $body }
-            _ => { type $t = [u8; 5]; $body }
+            30 => { type $t = [u8; 5]; $body }
+            31 => { type $t = $crate::BigTok; $body }
+            32 => { type $t = Vec<$crate::Tok8>; $body }
+            _ => { type $t = [u64; 12]; $body }
         }
     };
 }
